@@ -250,18 +250,19 @@ def build_model(area):
     return os.path.join(CACHE, 'modelrun', area, 'modelrun')
 
 _impl_built = {}
-def build_impl(profile='debug'):
-    """cargo build of the harness against /repo's current working tree"""
-    if profile in _impl_built:
-        return _impl_built[profile]
-    cmd = ['cargo', 'build', '--offline', '--manifest-path', os.path.join(ROOT, 'harness', 'Cargo.toml')]
+def build_impl(area, profile='debug'):
+    """cargo build of the harness binary h_<area> against /repo's current working tree"""
+    key = (area, profile)
+    if key in _impl_built:
+        return _impl_built[key]
+    cmd = ['cargo', 'build', '--offline', '--manifest-path', os.path.join(ROOT, 'harness', 'Cargo.toml'), '--bin', 'h_' + area]
     if profile == 'release':
         cmd.append('--release')
     rc, out = sh(cmd, timeout=1800)
     if rc != 0:
         raise RuntimeError('cargo build of harness failed:\n' + out[-4000:])
-    path = os.path.join(TARGET, profile, 'fharness')
-    _impl_built[profile] = path
+    path = os.path.join(TARGET, profile, 'h_' + area)
+    _impl_built[key] = path
     return path
 
 _cli_built = {}
@@ -406,8 +407,8 @@ class Check:
         return res
 
     # ---- runners ---------------------------------------------------------
-    def impl(self, lines, timeout=None, profile='debug', workers=NPROC, limit_as=4 << 30):
-        exe = build_impl(profile)
+    def impl(self, area, lines, timeout=None, profile='debug', workers=NPROC, limit_as=4 << 30):
+        exe = build_impl(area, profile)
         if timeout is None:
             timeout = 10 if self.tier == 'quick' else 60
         outs = run_batch([exe], lines, timeout=timeout, workers=workers, limit_as=limit_as)
